@@ -40,6 +40,10 @@ pub fn oracle_server() {
                 let k = req["k"].as_u64().unwrap() as usize;
                 json!({"ok": KmerGenerator::new(&seq, k).map(|(f, r)| json!([f, r])).collect::<Vec<_>>()})
             }
+            "kmers_count" => {
+                let k = req["k"].as_u64().unwrap() as usize;
+                json!({"ok": KmerGenerator::new(&seq, k).count()})
+            }
             "mins" => {
                 let (w, m) = (req["w"].as_u64().unwrap() as usize, req["m"].as_u64().unwrap() as usize);
                 json!({"ok": MinimiserGenerator::new(&seq, w, m).map(|(v, s, e)| json!([v, s, e])).collect::<Vec<_>>()})
